@@ -74,6 +74,16 @@ PROPS = {
             'BlockIndex (HashMap of blocks) and TileIndex record loops; PMTiles leaf split (as_directory)',
         ],
     ),
+    'C11': dict(
+        verus=['varint_pbf', 'vector_tile_tables'],
+        kani=[],
+        not_decided=[
+            'the operation itself (vectortiles_update_properties::run, filter_map_properties): iterator adapters and closures over iter_mut',
+            'only-the-named-layer-changes, CSV join semantics, value typing (GeoValue)',
+            'encode_tag_ids / decode_tag_ids (iterate a BTreeMap-backed type), VectorTileLayer::read / to_blob framing, feature codec round trip',
+            'round trip lemma dec(enc(v)) = v for varints is stated per direction (encoder = LEB128 spec, decoder = 7-bit group rule), not composed',
+        ],
+    ),
     'C16': dict(
         verus=['pmtiles_dir', 'varint_pbf'],
         kani=['pmtiles_codec', 'versatiles_codec'],
